@@ -244,7 +244,7 @@ func spec_decoded(path string, k int, v any) bool {
 //@      ghost_complete(filepath.Dir(filepath.Dir(mb.path))), ghost_items(filepath.Dir(filepath.Dir(mb.path))),
 //@      ghost_idxIDs(mb.indexPath), ghost_idxSeen(mb.indexPath), ghost_idxName(mb.indexPath),
 //@      ghost_idxIDs(mb.indexPath + ".tmp"), ghost_idxSeen(mb.indexPath + ".tmp"), ghost_idxName(mb.indexPath + ".tmp")
-//@   crashinv[indexReadable] spec_idxSafe(mb.indexPath) || !old(spec_idxSafe(mb.indexPath))
+//@   crashinv[indexReadable C11] spec_idxSafe(mb.indexPath) || !old(spec_idxSafe(mb.indexPath))
 //@   requires[r2 C11] spec_r2In(mb)
 //@   crashinv[listedHaveRaw C11] spec_listedHaveRaw(mb.indexPath, mb.path)
 // All or nothing for the index itself: at every crash point it is what it was when the update began, or
@@ -300,7 +300,7 @@ func spec_decoded(path string, k int, v any) bool {
 //@   ensures[staysLoaded] old(mb.indexLoaded) ==> mb.indexLoaded && vcSameSlice(mb.messages[:0], old(mb.messages[:0]))
 //@   ensures[consistent] ret == nil ==> spec_mbInv(mb)
 //@   ensures[shrinks] old(mb.indexLoaded) && old(len(mb.messages)) > 0 && id == old(mb.messages[0].Fid) ==> len(mb.messages) == old(len(mb.messages)) - 1
-//@   crashinv[indexReadable] spec_idxSafe(mb.indexPath) || !old(spec_idxSafe(mb.indexPath))
+//@   crashinv[indexReadable C11] spec_idxSafe(mb.indexPath) || !old(spec_idxSafe(mb.indexPath))
 //@   requires[r2 C11] spec_r2Disk(mb)
 //@   crashinv[listedHaveRaw C11] spec_listedHaveRaw(mb.indexPath, mb.path)
 //@   ensures[stillHaveRaw C11] spec_listedHaveRaw(mb.indexPath, mb.path)
@@ -374,7 +374,7 @@ func spec_decoded(path string, k int, v any) bool {
 //@   requires spec_listOK(mb)
 //@   modifies mb.messages, allof(ghost_exists), allof(ghost_complete), allof(ghost_items), allof(ghost_fcontent), allof(ghost_idxIDs), allof(ghost_idxSeen), allof(ghost_idxName)
 //@   requires[r2 C11] spec_rawApart(mb) && spec_listedHaveRaw(mb.indexPath, mb.path)
-//@   crashinv[indexReadable] spec_idxSafe(mb.indexPath) || !old(spec_idxSafe(mb.indexPath))
+//@   crashinv[indexReadable C11] spec_idxSafe(mb.indexPath) || !old(spec_idxSafe(mb.indexPath))
 //@   ensures ret == nil ==> spec_idxN(mb.indexPath) == 0
 //@   ensures[stillHaveRaw C11] spec_listedHaveRaw(mb.indexPath, mb.path)
 //@   serves C07 C11 C09
@@ -417,7 +417,7 @@ func spec_decoded(path string, k int, v any) bool {
 //@   requires spec_storeOK(fs)
 //@   requires[r2 C11] spec_r2Top(fs, mailbox)
 //@   modifies *
-//@   crashinv[indexReadable] true
+//@   crashinv[indexReadable C11] true
 //@   crashinv[listedHaveRaw C11] spec_listedHaveRaw(spec_indexPath(fs, mailbox), spec_mboxPath(fs, mailbox))
 //@   ensures[stillHaveRaw C11] spec_listedHaveRaw(spec_indexPath(fs, mailbox), spec_mboxPath(fs, mailbox))
 //@   ensures[notExist] ret == nil ==> !old(spec_noID(spec_indexPath(fs, mailbox), id, spec_idxN(spec_indexPath(fs, mailbox))))
@@ -437,7 +437,7 @@ func spec_decoded(path string, k int, v any) bool {
 //@   modifies mb.messages, elems(mb.messages), mb.indexLoaded, mb.name, allof(ghost_exists), allof(ghost_complete), allof(ghost_items), allof(ghost_fcontent), allof(ghost_idxIDs), allof(ghost_idxSeen), allof(ghost_idxName), ghost_nemitted(&mb.store.extHost.Events.AfterMessageDeleted), ghost_emitted(&mb.store.extHost.Events.AfterMessageDeleted)
 //@   requires[r2 C11] spec_r2Disk(mb)
 //@   ensures[stillSafe C11] spec_idxSafe(mb.indexPath) || !old(spec_idxSafe(mb.indexPath))
-//@   crashinv[indexReadable] spec_idxSafe(mb.indexPath) || !old(spec_idxSafe(mb.indexPath))
+//@   crashinv[indexReadable C11] spec_idxSafe(mb.indexPath) || !old(spec_idxSafe(mb.indexPath))
 //@   crashinv[listedHaveRaw C11] spec_listedHaveRaw(mb.indexPath, mb.path)
 //@   ensures[stillHaveRaw C11] spec_listedHaveRaw(mb.indexPath, mb.path)
 //@   ensures[listHasRaw C11] ret1 == nil ==> spec_memHaveRaw(mb)
@@ -450,10 +450,11 @@ func spec_decoded(path string, k int, v any) bool {
 //@   ensures[belowCap C08] ret1 == nil && mb.store.messageCap > 0 ==> len(mb.messages) < mb.store.messageCap
 //@   ensures[noCapUntouched C08] ret1 == nil && mb.store.messageCap <= 0 ==> spec_loaded(mb) && spec_idxN(mb.indexPath) == old(spec_idxN(mb.indexPath)) &&
 //@      forall i int :: { vcSeqAt(ghost_idxIDs(mb.indexPath), i) } 0 <= i && i < spec_idxN(mb.indexPath) ==> vcSeqAt(ghost_idxIDs(mb.indexPath), i) == old(vcSeqAt(ghost_idxIDs(mb.indexPath), i))
-//@   loop 1: invariant mb.indexLoaded && spec_listOK(mb) && mb.store.messageCap > 0 && (spec_idxSafe(mb.indexPath) || !old(spec_idxSafe(mb.indexPath)))
+//@   loop 1: invariant mb.indexLoaded && spec_listOK(mb) && mb.store.messageCap > 0
+//@   loop 1: invariant[safe C11] spec_idxSafe(mb.indexPath) || !old(spec_idxSafe(mb.indexPath))
 //@   loop 1: invariant vcFresh(mb.messages) || len(mb.messages) == 0 || (vcSameSlice(mb.messages[:0], old(mb.messages[:0])) && len(mb.messages) <= old(len(mb.messages)))
 //@   loop 1: invariant[assumedNoIOFaults] spec_mbInv(mb)
-//@   loop 1: invariant[r2] spec_r2Disk(mb)
+//@   loop 1: invariant[r2 C11] spec_r2Disk(mb)
 //@   loop 1: decreases len(mb.messages)
 //@   serves C08 C07 C11
 
@@ -464,7 +465,7 @@ func spec_decoded(path string, k int, v any) bool {
 //@   requires spec_storeOK(fs) && m != nil
 //@   modifies *
 //@   requires[r2 C11] spec_r2Top(fs, m.Mailbox())
-//@   crashinv[indexReadable] spec_idxSafe(spec_indexPath(fs, m.Mailbox())) || !old(spec_idxSafe(spec_indexPath(fs, m.Mailbox())))
+//@   crashinv[indexReadable C11] spec_idxSafe(spec_indexPath(fs, m.Mailbox())) || !old(spec_idxSafe(spec_indexPath(fs, m.Mailbox())))
 //@   crashinv[listedHaveRaw C11] spec_listedHaveRaw(spec_indexPath(fs, m.Mailbox()), spec_mboxPath(fs, m.Mailbox()))
 //@   ensures[stillHaveRaw C11] spec_listedHaveRaw(spec_indexPath(fs, m.Mailbox()), spec_mboxPath(fs, m.Mailbox()))
 //@   ensures[storesSource C02] err == nil ==> ghost_fcontent(spec_rawPath(fs, m.Mailbox(), id)) == storage.Ghost_srcContent(m)
